@@ -404,6 +404,29 @@ theorem generated_uint_float_uint (cast : DType → Rat → Rat) (ud fd : DType)
   rw [e, key]
   simp
 
+/-! ## `read_imgs` -/
+
+/-- **the extension dispatch of `read_imgs`**: a missing file is a ValueError whatever the name; otherwise `.tif` / `.tiff` → `TiffImageStack`,
+`.nrrd` → `NrrdImageStack`, `.v3dpbd` → `V3dpbdImageStack`, `.v3draw` → `V3drawImageStack`, `.npy` → `NDArrayImageStack` (`readerOf`), any other
+extension → `TeraflyImageStack` if the path is a TeraFly root and a ValueError if not; the class gets the caller's keyword arguments with
+`dtype` defaulting to `np.float32` -/
+theorem generated_read_dispatch (fname : String) (isRoot : Bool) (kwargs : Py.Dict String DType) :
+    read_imgs fname false isRoot kwargs = none ∧
+    (∀ c, readerOf (splitExt fname) = some c →
+      read_imgs fname true isRoot kwargs = some (c, Py.Dict.setdefault kwargs "dtype" DType.f32)) ∧
+    (readerOf (splitExt fname) = none →
+      read_imgs fname true isRoot kwargs = if isRoot then some ("TeraflyImageStack", Py.Dict.setdefault kwargs "dtype" DType.f32) else none) ∧
+    Py.Dict.get? (Py.Dict.setdefault kwargs "dtype" DType.f32) "dtype" = some ((Py.Dict.get? kwargs "dtype").getD DType.f32) := by
+  refine ⟨by rw [read_imgs_eq]; simp [readModel], fun c hc => by rw [read_imgs_eq]; simp [readModel, hc],
+    fun hn => by rw [read_imgs_eq]; simp [readModel, hn], ?_⟩
+  simp only [Py.Dict.setdefault, Py.Dict.contains, Py.Dict.get?]
+  rcases h : List.find? (fun p => decide (p.1 = "dtype")) kwargs with _ | p
+  · simp [List.find?_append, h]
+  · simp [h]
+
+example : readerOf ".tiff" = some "TiffImageStack" ∧ readerOf ".npy" = some "NDArrayImageStack" ∧ readerOf ".TIF" = none := by decide
+example : splitExt "a/b.c/x.tiff" = ".tiff" ∧ splitExt "dir.d/.hidden" = "" ∧ splitExt "a.b/c" = "" := by decide +kernel
+
 /-! ## non-vacuity (kernel-evaluated): the generated definitions run on a `(2, 1, 3, 1)` array -/
 
 def exArr : NdArr Rat := NdArr.ofFlat [2, 1, 3, 1] [1, 2, 3, 4, 5, 6] .u8
